@@ -5,6 +5,7 @@ import AmqModel.Driver.TuneEngine
 import AmqModel.Driver.UrlEngine
 import AmqModel.Driver.MachineEngine
 import AmqModel.Driver.ApiEngine
+import AmqModel.Driver.HandshakeEngine
 namespace AmqModel.Driver
 
 def engineByName : String → Option Engine
@@ -20,6 +21,8 @@ def engineByName : String → Option Engine
   | "machine" => some machineEngine
   | "machine-legacy" => some machineLegacyEngine
   | "api" => some apiEngine
+  | "hs" => some handshakeEngine
+  | "hs-legacy" => some handshakeLegacyEngine
   | _ => none
 
 end AmqModel.Driver
